@@ -1,7 +1,7 @@
 // Runtime contract check of the JavaScript-facing linter object (attached to harper-wasm/src/lib.rs; the crate
 // is also an rlib, so its pure-Rust API runs natively).
 // BOUNDED stand-in for C16 (and for the harper-wasm call sites of C11 / C18): the representation invariant and
-// the operation contracts of `Linter`, executed on scripted call sequences over 34 texts x {Plain, Markdown}:
+// the operation contracts of `Linter`, executed on scripted call sequences over 35 texts x {Plain, Markdown}:
 //  (a) lint: every span inside the text, spans pairwise non-overlapping, problem text == the characters at the span;
 //      Lint / Span / Suggestion survive to_json -> from_json -> to_json unchanged;
 //  (b) apply_suggestion == the mathematical splice at the lint's span (everything before and after untouched);
@@ -55,7 +55,8 @@ fn rac_wasm_api() {
         "This sentence goes on and on and on and on and on and on and on and on and on and on and on and on and on and on and on and on and on and on and has a mispeling here and anothr one there.",
         "Intro words here. I should of gone there and you should of stayed.",
         // candidates that overlap before overlap removal (ignoring the winner must not resurrect the loser)
-        "It's a a mistake , really", "We use the microsoft windows system here."];
+        "It's a a mistake , really", "We use the microsoft windows system here.",
+        "This sentence goes on and on and on and on and on and on and on and on and on and on and on and on and on and on and on and on and on and on and on and then says teh teh twice before it ends."];
     let mut linter = Linter::new(Dialect::American);
     let mut cases = 0u64;
     let mut nontrivial = 0u64;
@@ -101,7 +102,9 @@ fn rac_wasm_api() {
                 linter.clear_ignored_lints();
                 let victim = Lint::from_json(lints[k].to_json()).unwrap();
                 linter.ignore_lint(t.to_string(), victim);
-                let later = rac_sigs(&linter.lint(t.to_string(), lang));
+                let later_lints = linter.lint(t.to_string(), lang);
+                if let Some(why) = rac_check_lints(t, &later_lints) { fail("c", t, format!("after ignoring lint #{}: {}", k, why)); }
+                let later = rac_sigs(&later_lints);
                 if later.contains(&all[k]) { fail("c", t, format!("lint #{} is still reported after ignore_lint", k)); }
                 let mut it = later.iter().peekable();
                 for (i, s) in all.iter().enumerate() {
@@ -222,5 +225,5 @@ fn rac_wasm_api() {
             fail("f", t, format!("to_title_case returned {:?}", g));
         }
     }
-    println!("RAC-OK wasm_api cases={} nontrivial={} bound=34-texts-x-2-languages;ignore-first-3-lints-each;one-scripted-sequence-each-for-words,configuration", cases, nontrivial);
+    println!("RAC-OK wasm_api cases={} nontrivial={} bound=35-texts-x-2-languages;ignore-first-3-lints-each;one-scripted-sequence-each-for-words,configuration", cases, nontrivial);
 }
